@@ -68,3 +68,34 @@ Print Assumptions C03_engine_no_eof_on_truncated_or_corrupt.
 Theorem C03_engine_trunc_regression : EngineRefineSpecFinal.trunc_stream_regression_statement.
 Proof. exact trunc_stream_regression. Qed.
 Print Assumptions C03_engine_trunc_regression.
+
+(* ---- the engine never panics and never gets stuck (proofs/EngineSafety*.v, erun_safe): every
+   data-dependent Go bounds check, slice expression and shift of inflate.go, header.go, huffcode.go,
+   decode.go, reader.go and bufio is an explicit RPanic in the model, every loop carries fuel (RStuck);
+   for every input of bytes, every schedule, terminal and list of Read sizes neither is ever returned
+   (within the bounds under which the model's fuel is adequate). *)
+From Verif Require Import EngineSafetyBuf EngineSafetyFinal EngineCompleteSpecB EngineCompleteSpecC EngineTop.
+Theorem C03_engine_no_panic : forall bufsize chunks term reads,
+    bufsize <= 90000 -> src_total chunks <= 262141 ->
+    Forall (Forall (fun b => b < 256)) chunks ->
+    Forall (fun br => snd br <> RPanic /\ snd br <> RStuck) (erun bufsize chunks term reads).
+Proof. exact erun_safe. Qed.
+Print Assumptions C03_engine_no_panic.
+(* the verdict: with enough Reads the run ends in exactly one of io.EOF / io.ErrUnexpectedEOF / the
+   source's error / CorruptInputError; io.EOF iff the reference says Done (on strict streams); a stream
+   the reference calls corrupt ends in CorruptInputError; unexpected EOF and the source's error are
+   reported only for input the reference calls incomplete, according to how the source ended *)
+Theorem C03_engine_verdict : forall data cs bufsize t reads,
+  bytes_ok data -> cut_of cs data -> in_model_bounds bufsize cs -> enough_reads data reads ->
+  let l := fst (erun_ext bufsize cs t reads) in
+  exists bytes r, last l ([], ROk) = (bytes, r) /\ l <> [] /\
+    (r = REOF \/ r = RUnexpectedEOF \/ r = RSrcErr \/ exists o, r = RCorrupt o) /\
+    (status (Inflate.inflate [] data) = Done -> strict data -> r = REOF) /\
+    (r = REOF -> status (Inflate.inflate [] data) = Done) /\
+    (status (Inflate.inflate [] data) = Corrupt -> exists o, r = RCorrupt o) /\
+    (r = RUnexpectedEOF -> t = TEOF /\ status (Inflate.inflate [] data) = NeedInput) /\
+    (r = RSrcErr -> t = TErr /\ status (Inflate.inflate [] data) = NeedInput) /\
+    (r = RUnexpectedEOF \/ r = RSrcErr ->
+       exists z, out (Inflate.inflate [] data) = results_bytes l ++ z /\ (length z <= 2)%nat).
+Proof. exact engine_verdict. Qed.
+Print Assumptions C03_engine_verdict.
